@@ -789,6 +789,9 @@ func (e *Enc) loopHeader(fr *Frame, li *LoopInfo, guard T, st *State) (T, *State
 	// 1. invariant holds on entry
 	sc := e.scopeAt(fr, hdr, lastPhiIdx(hdr), st)
 	sc.old = fr.entrySt
+	if fr.regionLoop != nil && fr.regionLoop != li {
+		sc.oldHdr = fr.regionLoop.header // inside a loop-body contract old() is the state at that loop's head
+	}
 	for _, c := range spec.Invariants {
 		t := e.evalBool(sc, c.E)
 		e.oblige("inv-init", fmt.Sprintf("loop%d:%s", li.ord, clabel(c)), guard, t, c.Src, hdr.Instrs[0].Pos())
@@ -897,6 +900,9 @@ func (e *Enc) loopHeader(fr *Frame, li *LoopInfo, guard T, st *State) (T, *State
 	// 3. assume the invariant for an arbitrary iteration
 	sc = e.scopeAt(fr, hdr, lastPhiIdx(hdr), st)
 	sc.old = fr.entrySt
+	if fr.regionLoop != nil && fr.regionLoop != li {
+		sc.oldHdr = fr.regionLoop.header
+	}
 	for _, c := range spec.Invariants {
 		t := e.evalBool(sc, c.E)
 		e.assert(Implies(guard, t))
@@ -1388,6 +1394,9 @@ func (e *Enc) backEdge(fr *Frame, from, hdr *ssa.BasicBlock, guard T, st *State)
 	sc := e.scopeAt(fr, from, len(from.Instrs)-1, st)
 	sc.over = over
 	sc.old = fr.entrySt
+	if fr.regionLoop != nil && fr.regionLoop != li {
+		sc.oldHdr = fr.regionLoop.header
+	}
 	pos := from.Instrs[len(from.Instrs)-1].Pos()
 	if !pos.IsValid() {
 		pos = hdr.Instrs[0].Pos()
